@@ -102,7 +102,7 @@ def stream_sql_and_e2e(ck, model_ok, tm=None):
     for key, t in G.all_triples():
         cases.append(("triple:%s/%s/%s" % key, t, allrows))
     seenf = set()
-    for t in G.fold_cases() + G.null_cases() + G.case_cases():
+    for t in G.fold_cases() + G.null_cases() + G.case_cases() + G.temporal_cases():
         s = G.prql(t)
         if s not in seenf:
             seenf.add(s)
